@@ -20,7 +20,7 @@ import re
 import numpy as np
 from scipy.spatial.transform import Rotation as R
 
-from harness.common import run_guarded, COQ
+from harness.common import run_guarded, COQ, Lock, sh
 from harness import c14_quad as Q
 
 import magpylib as magpy
@@ -977,7 +977,13 @@ def run(ctx):
     if ctx.tier == "thorough" and built:
         ctx.coqchk("MV.Props.C14")
     if built:
-        run_guarded(ctx, lambda: correspondence(ctx, ctx.n(600, 6000)), "C14 correspondence")
+        # the runners of the correspondence are not a dependency of Props/C14.vo: build them too
+        with Lock():
+            rc, out = sh("make -j4 Model/LawsExec.vo", 600, cwd=COQ)
+        if rc != 0:
+            ctx.add_broken("broken-correspondence", "Model/LawsExec.v does not compile", out[-1500:])
+        else:
+            run_guarded(ctx, lambda: correspondence(ctx, ctx.n(600, 6000)), "C14 correspondence")
     big = bool(ctx.broken)
     mult = 4 if big else 1
     run_guarded(ctx, lambda: sweep(ctx, ctx.n(12, 70) * mult, ctx.n(40, 250) * mult, ctx.n(0.5, 1.5),
